@@ -286,12 +286,15 @@ func (c *reusableConn) closeWithErr(err error) {
 	if err == nil {
 		err = net.ErrClosed
 	}
-	c.closeOnce.Do(func() {
-		c.t.m.Lock()
-		delete(c.t.conns, c)
-		delete(c.t.idleConns, c)
-		c.t.m.Unlock()
+	// Remove c from the pool before entering closeOnce. t.m must not be acquired
+	// inside closeOnce.Do: ReuseConnTransport.Close holds t.m while it runs
+	// closeOnce.Do (closeWithErrByTransport), so the two would wait for each other.
+	c.t.m.Lock()
+	delete(c.t.conns, c)
+	delete(c.t.idleConns, c)
+	c.t.m.Unlock()
 
+	c.closeOnce.Do(func() {
 		c.closeErr = err
 		c.c.Close()
 		close(c.closeNotify)
